@@ -88,6 +88,15 @@ func (t *vTransport) vOpenGate(ch chan struct{}) {
 	}
 }
 
+// vFeed: the peer sends more bytes now (a reaction to what the endpoint wrote).
+func (t *vTransport) vFeed(b []byte) {
+	t.in = append(t.in, b...)
+	select {
+	case t.wake <- struct{}{}:
+	default:
+	}
+}
+
 // vNotifyAt returns a channel that is closed once the endpoint has made n Write calls.
 func (t *vTransport) vNotifyAt(n int) chan struct{} {
 	t.notifyAt = n
@@ -145,7 +154,16 @@ func (t *vTransport) Read(p []byte) (int, error) {
 		case vEndForeign:
 			return 0, vErrForeign
 		default:
-			<-t.closed
+			select {
+			case <-t.wake:
+				if t.pos < len(t.in) {
+					return t.Read(p) // the peer has sent more in the meantime (vFeed)
+				}
+			case <-t.closed:
+			}
+			if !t.isClosed {
+				return t.Read(p)
+			}
 			if t.slowReadRelease > 0 {
 				time.Sleep(t.slowReadRelease) // a transport whose interrupted Read takes a moment to unwind
 			}
